@@ -457,7 +457,7 @@ def set_ivector_value(ivect, indx, val):
 
 lsci.getIVectorValue.argtypes = [ctypes.POINTER(IVECTOR),
                                   ctypes.c_size_t]
-lsci.getIVectorValue.restype = ctypes.c_size_t
+lsci.getIVectorValue.restype = ctypes.c_int
 
 
 def get_ivector_value(ivect, indx):
